@@ -60,6 +60,22 @@ def job(args):
                'functions': sorted('%s::%s' % f for f in res.functions if f[0]),
                'trusted': sorted(res.trusted), 'assumptions': sorted(res.assumptions),
                'replays': res.replays, 'native': None, 'note': c.note}
+        # phase 2 (DESIGN 2.6): the same harness with its size parameters fixed to small constants.  Loops unroll,
+        # quantifiers expand: quantifier-free queries, so the solver returns models.  A refutation there is a
+        # counterexample of the general obligation; a refutation of something the general run discharged means
+        # the encoding is unsound (reported as a checker error by run_property).
+        out['small'] = []
+        for asg in c.small:
+            rs = Hn.explore(c.id, c.harness, dict(c.loops), dict(c.summaries), timeout_ms=timeout,
+                            max_paths=600 if tier == 'quick' else 4000,
+                            deadline=time.time() + (60 if tier == 'quick' else 600), concretize=dict(asg))
+            tag = ','.join('%s=%s' % kv for kv in sorted(asg.items()))
+            out['solver_secs'] += rs.solver_secs
+            for lab, o in rs.obligations.items():
+                if lab.endswith('/supported') or lab.endswith('/paths'):
+                    continue
+                out['small'].append({'label': lab, 'sizes': tag, 'status': o['status'], 'secs': o['secs'],
+                                     'detail': o['detail'], 'replays': rs.replays.get(lab, [])[:2]})
         # undecided with smt2 text: second back end (cvc5)
         for o in out['obligations']:
             if o['status'] == 'undecided' and o.get('smt2'):
@@ -168,6 +184,23 @@ def run_property(prop, tier, seed, only=None):
             if not ok:
                 uncovered.append(r['id'] + '/' + cv)
         labels_refuted = set()
+        # a postcondition proved after a loop was proved *assuming* the loop invariant: it only counts when every
+        # invariant obligation (establish / preserve / decreases) of this contract is discharged
+        inv_open = [o['label'] for o in r['obligations']
+                    if ('/inv-' in o['label'] or '/decreases' in o['label']) and o['status'] != 'discharged']
+        if inv_open:
+            for o in r['obligations']:
+                if o['status'] == 'discharged' and o['label'] not in inv_open and '/inv-' not in o['label']:
+                    o['status'] = 'undecided'
+                    o['detail'] = 'proved only under a loop invariant that is not discharged: %s' % inv_open[0][:200]
+        # likewise a label is discharged only if every path through the function was analysed
+        partial = [o for o in r['obligations'] if o['status'] == 'undecided' and
+                   (o['label'].endswith('/supported') or o['label'].endswith('/paths'))]
+        if partial:
+            for o in r['obligations']:
+                if o['status'] == 'discharged':
+                    o['status'] = 'undecided'
+                    o['detail'] = 'discharged on the analysed paths only; some paths were not analysed: %s' % partial[0]['detail'][:200]
         for o in r['obligations']:
             lab = o['label'] if o['label'].startswith(r['id']) else r['id'] + '/' + o['label']
             rec = {'obligation': lab, 'status': o['status'], 'backend': o.get('backend', 'z3'),
@@ -188,6 +221,32 @@ def run_property(prop, tier, seed, only=None):
                 undecided.append(rec)
             if kf is not None and o['status'] != 'refuted':
                 rec['known_finding'] = kf['id'] + ' (not reproduced in this run)'
+            obligations.append(rec)
+        # small-instance phase
+        gen_status = {o['label']: o['status'] for o in r['obligations']}
+        small_by = {}
+        for so in r.get('small', []):
+            small_by.setdefault(so['label'], []).append(so)
+        for lab0, sos in small_by.items():
+            lab = lab0 if lab0.startswith(r['id']) else r['id'] + '/' + lab0
+            bad = [so for so in sos if so['status'] == 'refuted']
+            rec = {'obligation': lab + '@small', 'status': 'refuted' if bad else
+                   ('discharged' if all(so['status'] == 'discharged' for so in sos) else 'undecided'),
+                   'backend': 'z3 (quantifier-free re-instantiation: %s)' % '; '.join(sorted({so['sizes'] for so in sos})),
+                   'solver_s': round(sum(so['secs'] for so in sos), 3), 'paths': len(sos)}
+            kf = match_known(known, prop, lab)
+            if bad:
+                if kf is not None:
+                    known_hits.setdefault(kf['id'], (kf, []))[1].append(lab + '@small')
+                    rec['known_finding'] = kf['id']
+                elif gen_status.get(lab0) == 'discharged':
+                    disagreements.append({'obligation': lab, 'failure': 'refuted at sizes %s although discharged in general'
+                                          % bad[0]['sizes'], 'record': bad[0]['replays'][:1]})
+                elif lab0 not in labels_refuted:
+                    labels_refuted.add(lab0)
+                    violations.append({'obligation': lab, 'anchor': r['anchor'],
+                                       'detail': '%s [counterexample at sizes %s]' % (bad[0]['detail'], bad[0]['sizes']),
+                                       'replays': bad[0]['replays'], 'kind': 'refuted'})
             obligations.append(rec)
         nat = r.get('native')
         if nat:
